@@ -129,6 +129,16 @@ func (x *c03Interp) assign(fr *c03Frame, st *c03State, e ast.Expr, v *c03V) {
 	case *ast.IndexExpr:
 		for _, ev := range x.eval(fr, st, l.X) {
 			st.event(c03Event{Kind: "store", Node: e, Frame: fr, Target: ev.v, Val: v, Why: "indexed store"})
+			// r[i] = v on a presized list the path made, filled up to i: the abstract list grows (c03_eval_count.go)
+			if id, ok := ast.Unparen(l.X).(*ast.Ident); ok && ev.v.K == c03KList && ev.v.Base != nil {
+				if o, ok := objOf(info, id).(*types.Var); ok {
+					if ivs := x.eval(fr, st, l.Index); len(ivs) == 1 {
+						if nl := c03MadeFill(ev.v, ivs[0].v, v); nl != nil {
+							st.vars[o] = nl
+						}
+					}
+				}
+			}
 			// m[k] = v on a map the path built: the map now holds the entry
 			if _, isMap := info.TypeOf(l.X).Underlying().(*types.Map); isMap && ev.v.K == c03KList && len(ev.v.Keys) == len(ev.v.Elems) {
 				for _, kv := range x.eval(fr, st, l.Index) {
@@ -315,6 +325,11 @@ func (x *c03Interp) execStmt(fr *c03Frame, st *c03State, s ast.Stmt, label strin
 			for _, o := range x.evalList(fr, st, append(append([]ast.Expr{}, s.Lhs...), s.Rhs...)) {
 				u := x.unk(info.TypeOf(s.Lhs[0]))
 				u.From = o.vs
+				if len(o.vs) == 2 {
+					if c, ok := c03CountOp(s.Tok, o.vs[0], o.vs[1]); ok {
+						u.HasCnt, u.Cnt = true, c
+					}
+				}
 				x.assign(fr, o.st, s.Lhs[0], u)
 				outs = append(outs, c03Out{st: o.st})
 			}
@@ -331,6 +346,8 @@ func (x *c03Interp) execStmt(fr *c03Frame, st *c03State, s ast.Stmt, label strin
 					d = -1
 				}
 				nv = &c03V{K: c03KInt, Int: ev.v.Int + d, T: ev.v.T}
+			} else if c, ok := c03CountOp(s.Tok, ev.v, &c03V{K: c03KInt, Int: 1}); ok {
+				nv.HasCnt, nv.Cnt, nv.From = true, c, []*c03V{ev.v}
 			}
 			x.assign(fr, ev.st, s.X, nv)
 			outs = append(outs, c03Out{st: ev.st})
@@ -678,7 +695,7 @@ func (x *c03Interp) execRange(fr *c03Frame, st *c03State, s *ast.RangeStmt, labe
 		}
 	}
 	for _, ev := range x.eval(fr, st, s.X) {
-		v := ev.v
+		v := c03MadeFull(ev.v)
 		switch {
 		case v.K == c03KList && v.Base == nil && len(v.Elems) <= 24 && !c03HasSpread(v):
 			// a list whose elements are all known: the loop is unrolled (a symbolic element stands for itself once)
